@@ -209,6 +209,8 @@ def t5_duplicates() -> Iterator[Dict[str, Any]]:
                        mod("_impl", 1, ops=flat(cls("X"), cls("X", body=[fn("g")])))], "T5", shape="move-of-dup", form=form)
         yield project([mod("p", pkg=True, ops=flat(cls("X"), imp_ops), all=["X"]),
                        mod("_impl", 1, ops=flat(cls("X", body=[fn("g")])))], "T5", shape="move-onto-resident", form=form)
+        yield project([mod("p", pkg=True, ops=flat(cls("X", body=flat(fn("h"), cls("In", body=[fn("deep")]))), imp_ops), all=["X"]),
+                       mod("_impl", 1, ops=flat(cls("X", body=[fn("g")])))], "T5", shape="move-onto-resident-with-members", form=form)
 
 
 def t6_nested_packages() -> Iterator[Dict[str, Any]]:
